@@ -19,6 +19,11 @@ claimed = {
    text="FileSet.AddFile/NewFileSet are proved to maintain the representation invariant (file i owns [offset[i], offset[i]+Len(i)], next file starts right after, first offset 1); FileSet.Position is proved to return unknown exactly for 0 and positions >= the end, and otherwise to delegate to the unique owning file with a local offset in [0, Len]; lemma `injective` proves distinct (file, offset) pairs have distinct in-range global positions. File.setLines is proved to build exactly the table of line starts (0 and successors of LF, strictly increasing, none skipped) and File.Position to return the line whose start is the greatest start <= pos and column = pos - start + 1, unknown above len.",
    design_ref="DESIGN.md section 4 (C11), section 9",
    note="Trusted: sort.Search (binary-search postcondition valid for any predicate), bytes.Replace (returns a fresh copy; CRLF normalisation itself is not specified), File implementations' Len() being pure, stable and <= 2^48. 'Line = 1 + number of LF before pos' follows from the structural line-table invariant by counting; that step is a named meta-argument. Position.String/fmt rendering is not under contract. Positions are required >= 0."),
+ "C08": dict(
+   category="proof",
+   text="Each of the eleven literal parsers (Bool, Char, Float, Integer, Nil, Op, Regexp, Rune, String, TimeDuration, Word) is proved, for every file content, offset and position, to be total: every index, slice, type assertion and explicit panic in the parser, in unquoteString and in the reader primitives it calls is proved unreachable or in bounds; it returns exactly one of a node or an error; an error is positioned in [pos, end of input]; a node starts at pos and ends inside the input; Integer/Float/TimeDuration store exactly conv(bytes[pos:ReaderPos]) where conv is the uninterpreted strconv/time conversion. Reader.Readf's protocol (n == 0 ==> nil value, len(value) <= n <= len(input)) is proved of unquoteString (refinement obligation at the call in String).",
+   design_ref="DESIGN.md section 4 (C08), section 9",
+   note="Trusted: assumed contracts of strconv.ParseInt/ParseFloat/UnquoteChar, time.ParseDuration, utf8.DecodeRuneInString, regexp; axioms that the six constant regular expressions compile and do not match the empty input; the reader is a *text.Reader (Parser contract precondition). Not decided: that the lexeme is the longest literal of the documented syntax (regexp semantics), that escapes denote the right code points (strconv)."),
 }
 NA = {
  "C05": "differential agreement with a reference evaluator on a client grammar: depends on the shape of trees built by curtailed left recursion (C01's global theorem) plus a model of client interpreters; no contract on a function of /repo states it",
